@@ -208,6 +208,14 @@ pub fn run(rng: &mut Rng, out: &mut Out, thorough: bool, variant: &str) {
     }
     // several long superblocks in one vector (pointer arithmetic into the `long` array beyond the first one):
     // 4096 ones must span >= 18^4 = 104976 positions, i.e. density below 1/25.6 at lengths 131072..262143
+    // block samples of SHORT superblocks that need more than 17 bits: len >= 2^19 with a superblock spanning
+    // close to bit_len(len)^4 positions (heavy for the Coq model: thorough tier, or when the code of the
+    // anchor files changed - check.py then sets VERIF_ESCALATED)
+    let heavy = thorough || std::env::var("VERIF_ESCALATED").is_ok();
+    if heavy && full {
+        emit(out, "long3", &gen_bits(rng, 600_000, Style::Sparse(36)), false, nq, rng, 3);
+        emit(out, "long3", &gen_bits(rng, 600_000, Style::Dense(36)), false, nq, rng, 5);
+    }
     let long2: Vec<(usize, u64)> = if thorough { vec![(250_000, 30), (262_143, 27)] } else if full { vec![(215_000, 26)] } else { vec![] };
     for (len, k) in long2 {
         emit(out, "long2", &gen_bits(rng, len, Style::Sparse(k)), false, nq, rng, 3);
